@@ -192,9 +192,13 @@ func (fi *FnInfo) scan() {
 					}
 				}
 			case *ssa.MakeClosure:
-				for _, bnd := range x.Bindings {
+				cf, _ := x.Fn.(*ssa.Function)
+				for i, bnd := range x.Bindings {
 					if a, ok := bnd.(*ssa.Alloc); ok {
-						fi.allocEsc[a] = true
+						// captured: escapes only if the closure (transitively) writes the variable
+						if cf == nil || closureWrites(cf, i, 0) {
+							fi.allocEsc[a] = true
+						}
 					}
 				}
 			}
@@ -496,6 +500,9 @@ func (fi *FnInfo) load(u *ssa.UnOp) *Term {
 		}
 		return fi.uniq(TVar, "load:"+a.Comment, u)
 	case *ssa.FreeVar:
+		if t := fi.freeVarTerm(a, 0); t != nil {
+			return t
+		}
 		return fi.uniq(TVar, "load:free:"+a.Name(), u)
 	case *ssa.Global:
 		return fi.place(a)
@@ -844,4 +851,132 @@ func (p *Prog) pbGetter(fn *ssa.Function) (string, bool) {
 		}
 	}
 	return "", false
+}
+
+// closureWrites reports whether closure f (or a closure nested in it) may write the captured
+// variable bound to its idx-th free variable.
+func closureWrites(f *ssa.Function, idx int, depth int) bool {
+	if idx >= len(f.FreeVars) || depth > 5 {
+		return true
+	}
+	fv := f.FreeVars[idx]
+	refs := fv.Referrers()
+	if refs == nil {
+		return false
+	}
+	for _, r := range *refs {
+		switch x := r.(type) {
+		case *ssa.Store:
+			if x.Addr == ssa.Value(fv) {
+				return true
+			}
+		case *ssa.UnOp:
+			// load: fine
+		case *ssa.MakeClosure:
+			g, _ := x.Fn.(*ssa.Function)
+			for j, b := range x.Bindings {
+				if b == ssa.Value(fv) && (g == nil || closureWrites(g, j, depth+1)) {
+					return true
+				}
+			}
+		case *ssa.DebugRef:
+		default:
+			// address passed somewhere (call argument, field address ...): assume written
+			if _, isFA := r.(*ssa.FieldAddr); isFA {
+				continue
+			}
+			return true
+		}
+	}
+	return false
+}
+
+// freeVarTerm resolves a load of a captured variable that is assigned exactly once (in the
+// enclosing function, before the closure is created) and never written by any closure, to the term
+// of the assigned value: parameters of the enclosing function become free:<name>.
+func (fi *FnInfo) freeVarTerm(fv *ssa.FreeVar, depth int) *Term {
+	par := fi.Fn.Parent()
+	if par == nil || depth > 4 {
+		return nil
+	}
+	idx := -1
+	for i, x := range fi.Fn.FreeVars {
+		if x == fv {
+			idx = i
+		}
+	}
+	if idx < 0 {
+		return nil
+	}
+	pfi := fi.p.Info(par)
+	var res *Term
+	n := 0
+	for _, b := range par.Blocks {
+		for _, in := range b.Instrs {
+			mc, ok := in.(*ssa.MakeClosure)
+			if !ok || mc.Fn != ssa.Value(fi.Fn) {
+				continue
+			}
+			n++
+			switch bnd := mc.Bindings[idx].(type) {
+			case *ssa.Alloc:
+				sv := pfi.singleStore(bnd)
+				if sv == nil {
+					return nil
+				}
+				// the single store must precede the closure creation
+				var st ssa.Instruction
+				for _, r := range *bnd.Referrers() {
+					if s, ok := r.(*ssa.Store); ok && s.Addr == ssa.Value(bnd) {
+						st = s
+					}
+				}
+				if st == nil || !instrDominates(st, mc) {
+					return nil
+				}
+				if prm, ok := sv.(*ssa.Parameter); ok {
+					res = mk(TFree, "free:"+prm.Name(), prm.Type(), sv)
+				} else {
+					res = pfi.T(sv).paramsToFree()
+				}
+			case *ssa.FreeVar:
+				res = pfi.freeVarTerm(bnd, depth+1)
+			default:
+				return nil
+			}
+		}
+	}
+	if n != 1 {
+		return nil
+	}
+	return res
+}
+
+// paramsToFree renames the parameter roots of a term of an enclosing function so that it can be used
+// inside a closure (where the same variables appear as free:<name>).
+func (t *Term) paramsToFree() *Term {
+	if t == nil {
+		return nil
+	}
+	if t.K == TParam {
+		return mk(TFree, "free:"+t.Name, t.Typ, t.Val)
+	}
+	if len(t.Sub) == 0 {
+		return t
+	}
+	changed := false
+	ns := make([]*Term, len(t.Sub))
+	for i, s := range t.Sub {
+		ns[i] = s.paramsToFree()
+		if ns[i] != s {
+			changed = true
+		}
+	}
+	if !changed {
+		return t
+	}
+	c := *t
+	c.Sub = ns
+	c.s = c.render()
+	return &c
 }
